@@ -258,6 +258,13 @@ pub fn make(prop: &str, tier: Tier, seed: u64) -> Scenario {
     if matches!(prop, "C01" | "C16" | "C19" | "C10") && s.extra.get("plan").is_none() && s.extra.get("kind").is_none() && s.extra.get("c19_cycles").is_none() && (mr.chance(1, 12) || std::env::var("SIM_FORCE_FAMILY").map_or(false, |v| v == "merge")) {
         merge_cascade_history(&mut s, &mut mr);
     }
+    // buggify: in a quarter of the fault-free runs page reads and writes are sometimes cut short
+    // or interrupted (EINTR); nothing observable may change
+    let mut br = Rng::new(seed ^ 0xB066_1F10);
+    if matches!(prop, "C01" | "C02" | "C05" | "C06" | "C07" | "C09" | "C10" | "C11" | "C13" | "C16" | "C19") && s.extra.get("plan").is_none() && s.extra.get("kind").is_none() && s.faults.is_empty() && br.chance(1, 4) {
+        if !s.extra.is_object() { s.extra = json!({}); }
+        s.extra["buggify_io"] = json!(*br.pick(&[3u64, 10, 40]));
+    }
     let mut or = Rng::new(seed ^ 0x0E11_D0E5);
     if matches!(prop, "C02" | "C05" | "C11" | "C16") && s.extra.get("plan").is_none() && s.extra.get("kind").is_none() && or.chance(1, 12) {
         overlay_threshold_history(&mut s, &mut or);
